@@ -351,10 +351,16 @@ def rule_r6(prog, res) -> None:
     sc = prog.find_class("Scales")
     ss = sc.methods["_set_scales"]
     res.touch(ss)
-    spaths = symx.explore(prog, ss, inline=symx.inline_private_helpers(prog))
-    if len(ss.param_names()) < 3:
-        raise AnalysisError(f"C15.R6: Scales._set_scales no longer takes the lower and the upper limits as two parameters ({ss.param_names()[1:]}): strictness witnesses not applicable")
-    pmin, pmax = ss.param_names()[1:3]
+    if len(ss.param_names()) == 2:
+        # the two limits travel as one pair: explored with the parameter bound to a pair of two named witnesses
+        pmin, pmax = "lo_witness", "hi_witness"
+        pair = ast.Tuple(elts=[ast.Name(id=pmin, ctx=ast.Load()), ast.Name(id=pmax, ctx=ast.Load())], ctx=ast.Load())
+        spaths = symx.Explorer(prog, inline=symx.inline_private_helpers(prog)).run(ss, {ss.param_names()[1]: pair})
+    elif len(ss.param_names()) >= 3:
+        spaths = symx.explore(prog, ss, inline=symx.inline_private_helpers(prog))
+        pmin, pmax = ss.param_names()[1:3]
+    else:
+        raise AnalysisError(f"C15.R6: Scales._set_scales takes no limits any more ({ss.param_names()[1:]}): strictness witnesses not applicable")
     sverdict = {}
     from ..effects import Vec
 
